@@ -10,7 +10,7 @@ RCOLS = {"a": "i", "e": "i"}
 # (template over X [and R], parameter values)
 SIBLINGS = [
     ("X.repartition(partition_size={p})", ["'40B'", "'60B'", "'100B'", "'1kB'"]),
-    ("X.repartition(npartitions={p})", ["1", "2", "5", "7"]),
+    ("X.repartition(npartitions={p})", ["4", "5", "7", "1", "2", "6", "8"]),
     ("X.repartition(divisions={p})", ["[0, 3, HI]", "[0, 2, HI]", "[0, 1, 2, 3, HI]"]),
     ("X.repartition(divisions={p}, force=True)", ["[-1, 3, 7]", "[-1, 2, 7]"]),
     ("X.shuffle('a', npartitions={p})", ["2", "4", "7"]),
@@ -77,17 +77,24 @@ SIBLINGS = [
 ]
 
 
+_UNKNOWN_DIVISIONS_TOO = ("repartition(npartitions", "repartition(partition_size", "shuffle(", "head(", "tail(", "partitions[", "merge(", "cumsum", "X.{p}()",
+                          "map_partitions", "drop_duplicates", "nlargest", "groupby('a').c.sum(split_out")
+
+
 def programs(tier):
     import dask_expr as dx
 
     progs = []
     layouts = [(6, 3)] if tier == "quick" else [(6, 3), (8, 4), (5, 2)]
     for nrows, nparts in layouts:
-        srcX = Src("X", nrows, LCOLS, nparts)
         srcR = Src("R", 3, RCOLS, 2)
-        for tmpl, params in SIBLINGS:
+        for tmpl, params, how in [(t, p, h) for t, p in SIBLINGS for h in ("pandas", "delayed")]:
             if "pivot_table" in tmpl:
                 continue
+            if how == "delayed" and not any(k in tmpl for k in _UNKNOWN_DIVISIONS_TOO):
+                continue
+            # a second source kind with *unknown* divisions: repartition / alignment / selections plan differently there
+            srcX = Src("X", nrows, LCOLS, nparts, how=how)
             srcs = [srcX, srcR] if "R" in tmpl else [srcX]
             texts = [tmpl.format(p=p).replace("HI", str(nrows - 1)) for p in params]
             pairs = [(texts[i], texts[j]) for i in range(len(texts)) for j in range(i + 1, len(texts))]
